@@ -166,3 +166,68 @@ def c12_recreated(viol, inp, param):
             if path[:len(p)] == p and (seen_glob or any(x["k"] == "glob" for x in decls)):
                 return True
     return False
+
+
+# ---- layout findings (C19, C20, C21) ---------------------------------------------------------------
+@classifier("c19_same_near_constant_overlap")
+def c19_same_near(viol, inp, param):
+    if viol["aspect"] != "sibling-shapes-overlap":
+        return False
+    d = json.loads(viol["detail"])
+    return d[3] != "" and d[3] == d[4]
+
+
+@classifier("c20_self_loop_on_container")
+def c20_self_loop(viol, inp, param):
+    if viol["aspect"] not in ("connection-does-not-start-on-its-source", "connection-does-not-end-on-its-destination"):
+        return False
+    d = json.loads(viol["detail"])
+    rec = d[-1]
+    return isinstance(rec, dict) and rec.get("self") == 1 and rec.get("kids", 0) > 0
+
+
+@classifier("c21_dagre_label_and_icon_grow_explicit_size")
+def c21_dagre_icon_label(viol, inp, param):
+    if viol["aspect"] != "explicit-size-not-honoured":
+        return False
+    d = json.loads(viol["detail"])
+    engine, _id, _shape, want, got, rec = d
+    return engine == "dagre" and rec.get("icon") == 1 and rec.get("label") == 1 and got[0] >= want[0] and got[1] >= want[1] and got != want
+
+
+@classifier("witness_seed")
+def witness_seed(viol, inp, param):
+    """a finding identified by its specific input: param = mode:seed:engine:aspect-prefix"""
+    mode, seed, engine, aspect = param.split(":")
+    return inp.get("mode") == mode and str(inp.get("seed")) == seed and inp.get("engine") == engine and viol["aspect"].startswith(aspect)
+
+
+# ---- formatter findings (C03, C04): board blocks are hoisted to the end of their map ---------------
+def _fmt_feats(viol):
+    d = json.loads(viol["detail"])
+    return d.get("feats", []) if isinstance(d, dict) else []
+
+
+@classifier("c03_board_block_first_in_file")
+def c03_board_first(viol, inp, param):
+    return viol["aspect"] == "formatting-twice-changes-the-text" and "boards-first" in _fmt_feats(viol)
+
+
+@classifier("c04_scenarios_or_steps_moved_behind_later_declarations")
+def c04_boards_moved(viol, inp, param):
+    f = _fmt_feats(viol)
+    return (viol["aspect"] == "formatted-text-compiles-to-a-different-diagram" and ("boards-first" in f or "boards-middle" in f)
+            and ("boards-scenarios" in f or "boards-steps" in f))
+
+
+@classifier("c20_elk_self_loop_offset")
+def c20_elk_self(viol, inp, param):
+    if viol["aspect"] not in ("connection-does-not-start-on-its-source", "connection-does-not-end-on-its-destination"):
+        return False
+    d = json.loads(viol["detail"])
+    engine, _id, _shape, pt, box, rec = d
+    if engine != "elk" or rec.get("self") != 1 or rec.get("kids", 0) != 0:
+        return False
+    dx = max(box[0] - pt[0], pt[0] - box[2], 0)
+    dy = max(box[1] - pt[1], pt[1] - box[3], 0)
+    return max(dx, dy) <= 10
